@@ -845,20 +845,29 @@ package collection
 //@ ghost var twMoves int
 //@ ghost var twRemoves int
 //@ func (tw *TimingWheel) SetTimer
-//@   property C16
-//@   trusted
+//@   property C16 C12
+//@   flag private_channels
+//@   ghost at entry: twSets = twSets + 1
 //@   ensures twSets == old(twSets) + 1
-//@   modifies twSets
+//@   ensures implies(delay <= 0 || key == nil, result == ErrArgument)
+//@   ensures result == nil || result == ErrArgument || result == ErrClosed
+//@   modifies twSets, chanLen(tw.setChannel), chanLen(tw.stopChannel)
 //@ func (tw *TimingWheel) MoveTimer
-//@   property C16
-//@   trusted
+//@   property C16 C12
+//@   flag private_channels
+//@   ghost at entry: twMoves = twMoves + 1
 //@   ensures twMoves == old(twMoves) + 1
-//@   modifies twMoves
+//@   ensures implies(delay <= 0 || key == nil, result == ErrArgument)
+//@   ensures result == nil || result == ErrArgument || result == ErrClosed
+//@   modifies twMoves, chanLen(tw.moveChannel), chanLen(tw.stopChannel)
 //@ func (tw *TimingWheel) RemoveTimer
-//@   property C16
-//@   trusted
+//@   property C16 C12
+//@   flag private_channels
+//@   ghost at entry: twRemoves = twRemoves + 1
 //@   ensures twRemoves == old(twRemoves) + 1
-//@   modifies twRemoves
+//@   ensures implies(key == nil, result == ErrArgument)
+//@   ensures result == nil || result == ErrArgument || result == ErrClosed
+//@   modifies twRemoves, chanLen(tw.removeChannel), chanLen(tw.stopChannel)
 
 // Cache: under c.lock the data map and the lru agree on the key set, and a limited cache never holds more than its limit.
 //@ spec cacheSync(c *Cache) bool = c.data != nil && c.lruCache != nil && implies(lruLim[c.lruCache] > 0, lruOwner[c.lruCache] == c &&
